@@ -11,6 +11,38 @@ KEYS = {'class': 'class', 'struct': 'struct', 'union': 'union'}
 # ---------------------------------------------------------------------------
 # model side
 
+def dec_key(d):
+    return ' '.join(impl.TT[d.n()] for _k in range(d.n()))
+
+
+def dec_pq(d):
+    tn = d.b()
+    key = tuple(impl.TT[d.n()] for _k in range(d.n()))
+    segs = []
+    for _k in range(d.n()):
+        k = d.n()
+        if k == 0:
+            segs.append(('root',))
+        elif k == 1:
+            segs.append(('name', d.name(d.n())))
+        else:
+            segs.append(('fund', tuple(impl.TT[d.n()] for _j in range(d.n()))))
+    return (tn, key, tuple(segs))
+
+
+def dec_fin(d, acc, fl, td, bn, out):
+    fk = d.n()
+    if fk == 0:
+        d.n()
+    elif fk == 1:
+        d.n()
+        out.append(('field', acc, None, ('B', d.name(bn), False, False), None, None, (False, False, False, False)))
+    elif fk == 2:
+        bodies.dec_entries(d, None if td else (fl[2], fl[3], fl[4], fl[5]), td, out)
+    else:
+        bodies.dec_mentries(d, acc, fl, out)
+
+
 def dec_items(d, cnt, in_class, out):
     """decode [cnt] items; what follows a class's brace is flattened behind the class, as the parser delivers it"""
     for _ in range(cnt):
@@ -22,7 +54,34 @@ def dec_items(d, cnt, in_class, out):
             bodies.dec_nitem(d, out)
         elif kind == 2:
             a = d.n()
-            out.append(('fwd', impl.TT[a] if a else None, impl.TT[d.n()], d.name(d.n())))
+            out.append(('fwd', impl.TT[a] if a else None, dec_key(d), d.name(d.n()), None))
+        elif kind == 7:
+            a = d.n()
+            out.append(('fwd', impl.TT[a] if a else None, dec_key(d), d.name(d.n()), dec_pq(d)))
+        elif kind == 8:
+            a = d.n()
+            acc = impl.TT[a] if a else None
+            fl = d.mods()
+            key, bn, anon, td = dec_key(d), d.n(), d.b(), d.b()
+            base = dec_pq(d) if d.n() else None
+            vals = []
+            for _k in range(d.n()):
+                nm = d.name(d.n())
+                vals.append((nm, d.toks() if d.n() else None))
+            out.append(('enum', acc, key, d.name(bn), base, tuple(vals)))
+            dec_fin(d, acc, fl, td, bn, out)
+        elif kind == 9:
+            a = d.n()
+            acc = impl.TT[a] if a else None
+            k = d.n()
+            if k == 1:
+                root = d.b()
+                out.append(('using-dir', root, tuple(d.name(d.n()) for _k in range(d.n()))))
+            elif k == 2:
+                out.append(('using-decl', acc, dec_pq(d)))
+            else:
+                al = d.name(d.n())
+                out.append(('using-alias', acc, al, d.ty()))
         elif kind == 4:
             il = d.b()
             nms = tuple(d.name(d.n()) for _k in range(d.n()))
@@ -41,21 +100,12 @@ def dec_items(d, cnt, in_class, out):
             a = d.n()
             acc = impl.TT[a] if a else None
             fl = d.mods()
-            key, bn, anon, td, fi, ex = impl.TT[d.n()], d.n(), d.b(), d.b(), d.b(), d.b()
+            key, bn, anon, td, fi, ex = dec_key(d), d.n(), d.b(), d.b(), d.b(), d.b()
             bs = tuple((impl.TT[d.n()], d.name(d.n()), d.b(), d.b()) for _k in range(d.n()))
             members = []
             dec_items(d, d.n(), True, members)
             out.append(('class', acc, key, d.name(bn), fi, ex, bs, members))
-            fk = d.n()
-            if fk == 0:
-                d.n()
-            elif fk == 1:
-                d.n()
-                out.append(('field', acc, None, ('B', d.name(bn), False, False), None, None, (False, False, False, False)))
-            elif fk == 2:
-                bodies.dec_entries(d, None if td else (fl[2], fl[3], fl[4], fl[5]), td, out)
-            else:
-                bodies.dec_mentries(d, acc, fl, out)
+            dec_fin(d, acc, fl, td, bn, out)
 
 
 def model_names(names):
@@ -138,16 +188,16 @@ class _TreeRec(impl.SimpleCxxVisitor):
         return super().on_extern_block_end(state)
 
     def on_using_namespace(self, state, x):
-        self.other = True; super().on_using_namespace(state, x)
+        self._add('udir', list(x)); super().on_using_namespace(state, x)
 
     def on_using_alias(self, state, x):
-        self.other = True; super().on_using_alias(state, x)
+        self._add('ualias', x); super().on_using_alias(state, x)
 
     def on_using_declaration(self, state, x):
-        self.other = True; super().on_using_declaration(state, x)
+        self._add('udecl', x); super().on_using_declaration(state, x)
 
     def on_enum(self, state, x):
-        self.other = True; super().on_enum(state, x)
+        self._add('enum', x); super().on_enum(state, x)
 
     def on_template_inst(self, state, x):
         self.other = True; super().on_template_inst(state, x)
@@ -197,6 +247,18 @@ def ty(d):
     raise decl.Unrepresentable(type(d).__name__)
 
 
+def _pq(q):
+    segs = []
+    for sg in q.segments:
+        if isinstance(sg, T.FundamentalSpecifier):
+            segs.append(('fund', tuple(sg.name.split())))
+        elif isinstance(sg, T.NameSpecifier) and sg.specialization is None:
+            segs.append(('root',) if sg.name == '' else ('name', sg.name))
+        else:
+            raise bodies.Other()
+    return (q.has_typename, tuple((q.classkey or '').split()), tuple(segs))
+
+
 def conv(items):
     out = []
     for it in items:
@@ -218,9 +280,23 @@ def conv(items):
         elif kind == 'extern':
             out.append(('extern', o, conv(it[2])))
         elif kind == 'fwd':
-            if o.template is not None or o.typename.classkey not in KEYS or o.enum_base is not None:
+            if o.template is not None or not o.typename.classkey:
                 raise bodies.Other()
-            out.append(('fwd', o.access, o.typename.classkey, _cname(o.typename)))
+            out.append(('fwd', o.access, o.typename.classkey, _cname(o.typename), None if o.enum_base is None else _pq(o.enum_base)))
+        elif kind == 'enum':
+            if not o.typename.classkey:
+                raise bodies.Other()
+            out.append(('enum', o.access, o.typename.classkey, _cname(o.typename), None if o.base is None else _pq(o.base),
+                        tuple((e.name, None if e.value is None else tuple(t.value for t in e.value.tokens)) for e in o.values)))
+        elif kind == 'udir':
+            root = bool(o) and o[0] == ''
+            out.append(('using-dir', root, tuple(o[1:] if root else o)))
+        elif kind == 'udecl':
+            out.append(('using-decl', o.access, _pq(o.typename)))
+        elif kind == 'ualias':
+            if o.template is not None:
+                raise bodies.Other()
+            out.append(('using-alias', o.access, o.alias, ty(o.type)))
         elif kind in ('f', 'm', 'fr'):
             out.append(bodies.class_item(kind, o, ty))
         else:
@@ -281,6 +357,10 @@ def gen_class(rng, depth, in_class, td=False):
         elif r < 0.6:
             toks += ['friend'] + rng.choice([['Foo', ';'], ['void', 'ff', '(', 'T', ')', ';']])
             stmts += 1
+        elif r < 0.7:
+            toks += gen_enum_or_using(rng, True)
+            stmts += 1
+            budget = max(budget, 3)
         else:
             st, n = c03.gen_member_stmt(rng, name or 'Zz')
             if st[0] in ('inline', 'extern'):
@@ -304,6 +384,38 @@ def gen_class(rng, depth, in_class, td=False):
     return toks, budget, stmts + 1
 
 
+ENUM_TAILS_NS = [[';'], [';'], ['e_a', ';'], ['*', 'e_p', ',', 'e_q', ';'], ['e_b', '=', 'B', ';']]
+ENUM_TAILS_CLS = [[';'], [';'], ['m_e', ';'], ['m_e1', ',', 'm_e2', ';'], ['m_eb', ':', '3', ';']]
+
+
+def gen_enum_or_using(rng, in_class):
+    r = rng.random()
+    if r < 0.6:
+        key = rng.choice([['enum'], ['enum'], ['enum', 'class'], ['enum', 'struct']])
+        name = rng.choice([['E'], ['E'], ['Color'], []])
+        base = rng.choice([[], [], [':', 'int'], [':', 'unsigned', 'long'], [':', 'ns', '::', 'U8']])
+        if name and base and rng.random() < 0.2:
+            return key + name + base + [';']
+        if name and len(key) == 2 and rng.random() < 0.15:
+            return key + name + [';']
+        vals = []
+        for i in range(rng.choice([0, 1, 2, 3])):
+            if vals:
+                vals.append(',')
+            vals.append('V%d' % i)
+            if rng.random() < 0.4:
+                vals += ['='] + rng.choice([['1'], ['1', '<<', '2'], ['(', 'A', '|', 'B', ')'], ['f', '(', '1', ',', '2', ')']])
+        if vals and rng.random() < 0.3:
+            vals.append(',')
+        pre = [rng.choice(['static', 'const'])] if rng.random() < 0.1 else []
+        return pre + key + name + base + ['{'] + vals + ['}'] + list(rng.choice(ENUM_TAILS_CLS if in_class else ENUM_TAILS_NS))
+    if r < 0.75 and not in_class:
+        return ['using', 'namespace'] + rng.choice([['n1'], ['::', 'n1', '::', 'n2'], ['n1', '::', 'n2']]) + [';']
+    if r < 0.9:
+        return ['using'] + rng.choice([['Base', '::', 'f'], ['::', 'n1', '::', 'g'], ['typename', 'T', '::', 'type']]) + [';']
+    return ['using', rng.choice(['A1', 'Alias']), '='] + rng.choice([['Foo'], ['Foo', '*'], ['const', 'Bar', '&'], ['Foo', '[', '3', ']'], ['Bar', '*', 'const', '*'], ['int']]) + [';']
+
+
 def gen_unit(rng, depth=2):
     from harness.props import c01
     toks, budget, stmts = [], 1, 1
@@ -322,7 +434,9 @@ def gen_unit(rng, depth=2):
                 else:
                     head = ['extern', rng.choice(['"C"', '"C++"'])]
                 t2, s2 = head + ['{'] + inner + ['}'], s2 + 2
-        elif r < 0.4:
+        elif r < 0.38:
+            t2, b2, s2 = gen_enum_or_using(rng, False), 3, 1
+        elif r < 0.45:
             # declarations that start with `inline` / `extern`: dispatched to their own handlers first
             t2, b2 = c01.gen_mixed_stmt(rng)
             while t2[0] in ('inline', 'extern'):
